@@ -453,6 +453,23 @@ example :
     = some ([L "x86_64", L "s390x", L "i386"], true, true, true) := by
   decide +kernel
 
+/-- the same manifest inside a whole document of format 0.3: header, compose section, gate -/
+def c10_exRpmsDoc : PyVal :=
+  .dict [(L "header", .dict [(L "version", .str (L "0.3"))]),
+         (L "payload", .dict ((L "compose", .dict [(L "id", .str (L "RHEL-7.0-20140507.0")), (L "type", .str (L "production")),
+                                                  (L "date", .str (L "20140507")), (L "respin", .int 0)])
+                              :: (match c10_exManifest03 with | .dict kvs => kvs | _ => [])))]
+
+example :
+    ((Mf.deserializeL .rpms c10_exRpmsDoc).toOption.map fun m =>
+      (Mf.C10.archKeys m.payload,
+       Mf.getPath m.payload [L "Server", L "s390x", L "bash-0:4.2-5.src", L "bash-0:4.2-5.src"]
+         == some (Mf.rpmRecord none (L "Server/source/bash.src.rpm") (L "source"))))
+      = some ([L "x86_64", L "s390x", L "i386"], true)
+    ∧ ((Mf.headerDeserialize .rpms c10_exRpmsDoc).toOption.map fun r =>
+        match r.2 with | .nums l => Mf.gateHolds Gen.gate_rpms_Rpms_deserialize_0 l | .text => false) = some true := by
+  decide +kernel
+
 example : ∃ d, parseNvra (L "bash-0:4.2-5.src") = .ok d ∧ canonNvra d = L "bash-0:4.2-5.src" := by
   refine ⟨⟨some (L "bash"), 0, some (L "4.2"), some (L "5"), some (L "src")⟩, ?_, ?_⟩ <;> decide +kernel
 
